@@ -458,3 +458,192 @@ func definingExpr(p *packages.Package, file *ast.File, id *ast.Ident) ast.Expr {
 	}
 	return def
 }
+
+// ruleEveryMemberRead: a loop that reads through a reader chosen per iteration
+// (the members of a tuple or struct, the entries of a table of readers) reads
+// every one of them: it is left early only by the loop condition or with an
+// error.  A loop whose reader is the same for every iteration (the element of
+// a list) may stop at an element without representation — the others have
+// none either — which says nothing about the next member of a tuple.
+func ruleEveryMemberRead(c *core.Ctx, rule string) {
+	n := 0
+	for _, fn := range srcFuncsOfPkg(c, "meta/signature") {
+		if c.IsTestFile(fn) {
+			continue
+		}
+		for i, call := range core.Calls(fn) {
+			cc := call.Common()
+			if !cc.IsInvoke() || cc.Method.Name() != "Read" || len(cc.Args) != 1 {
+				continue
+			}
+			if !core.TypeIs(cc.Value.Type(), "meta/signature", "TypeReader") {
+				continue
+			}
+			in := call.(ssa.Instruction)
+			h := loopHeaderOf(in)
+			if h == nil {
+				continue
+			}
+			inLoop := func(b *ssa.BasicBlock) bool {
+				if !h.Dominates(b) {
+					return false
+				}
+				// b can come back to the header
+				seen := map[*ssa.BasicBlock]bool{}
+				var back func(x *ssa.BasicBlock) bool
+				back = func(x *ssa.BasicBlock) bool {
+					if x == h {
+						return true
+					}
+					if seen[x] || !h.Dominates(x) {
+						return false
+					}
+					seen[x] = true
+					for _, s := range x.Succs {
+						if back(s) {
+							return true
+						}
+					}
+					return false
+				}
+				for _, s := range b.Succs {
+					if back(s) {
+						return true
+					}
+				}
+				return false
+			}
+			n++
+			key := fmt.Sprintf("%s/read#%d", core.FuncKey(fn), i)
+			if readerInvariant(cc.Value, inLoop, 0) {
+				c.Pass(rule, key, call.Pos(), "one reader for every iteration (elements of one type)")
+				continue
+			}
+			// exits of the loop other than the header's own and the error side of an error test
+			bad := ""
+			for _, b := range fn.Blocks {
+				if !inLoop(b) || b == h || len(b.Instrs) == 0 {
+					continue
+				}
+				ifi, isIf := b.Instrs[len(b.Instrs)-1].(*ssa.If)
+				for si, s := range b.Succs {
+					if inLoop(s) || s == h {
+						continue
+					}
+					if isIf {
+						if okIdx, isErr := isErrGuard(ifi); isErr && si != okIdx {
+							continue // leaves with the error
+						}
+					}
+					if blockOnlyFails(s) {
+						continue
+					}
+					bad = "the loop is left at " + c.Pos(lastPos(b)) + " before every member was read"
+				}
+			}
+			c.Check(bad == "", rule, key, call.Pos(), "a reader per iteration, every iteration runs (the loop ends with its condition or with an error)",
+				"the members of a tuple or structure have types of their own: "+bad+" — the remaining members stay in the stream and are missing from the bytes returned")
+		}
+	}
+	if n < 1 {
+		c.Undecided(rule, "meta/signature reader loops", token.NoPos, fmt.Sprintf("only %d loops reading through a TypeReader found", n))
+	}
+}
+
+// blockOnlyFails: every return reachable from b carries a non-nil error constant-wise
+// (b starts an error exit).
+func blockOnlyFails(b *ssa.BasicBlock) bool {
+	seen := map[*ssa.BasicBlock]bool{}
+	var walk func(x *ssa.BasicBlock) bool
+	walk = func(x *ssa.BasicBlock) bool {
+		if seen[x] {
+			return true
+		}
+		seen[x] = true
+		if len(x.Instrs) > 0 {
+			if ret, ok := x.Instrs[len(x.Instrs)-1].(*ssa.Return); ok {
+				return !successReturn(ret) && errorReturnConst(ret)
+			}
+		}
+		if len(x.Succs) == 0 {
+			return true
+		}
+		for _, s := range x.Succs {
+			if !walk(s) {
+				return false
+			}
+		}
+		return true
+	}
+	return walk(b)
+}
+
+// readerInvariant: v denotes the same reader in every iteration of the loop.
+func readerInvariant(v ssa.Value, inLoop func(*ssa.BasicBlock) bool, depth int) bool {
+	if depth > 8 {
+		return false
+	}
+	switch x := v.(type) {
+	case *ssa.Parameter, *ssa.Const, *ssa.FreeVar, *ssa.Global, *ssa.Function:
+		return true
+	case *ssa.MakeInterface:
+		return readerInvariant(x.X, inLoop, depth+1)
+	case *ssa.ChangeInterface:
+		return readerInvariant(x.X, inLoop, depth+1)
+	case *ssa.ChangeType:
+		return readerInvariant(x.X, inLoop, depth+1)
+	}
+	in, ok := v.(ssa.Instruction)
+	if !ok {
+		return false
+	}
+	if in.Block() != nil && !inLoop(in.Block()) {
+		return true
+	}
+	switch x := v.(type) {
+	case *ssa.Field:
+		return readerInvariant(x.X, inLoop, depth+1)
+	case *ssa.FieldAddr:
+		return readerInvariant(x.X, inLoop, depth+1)
+	case *ssa.UnOp:
+		if x.Op != token.MUL {
+			return false
+		}
+		if !readerInvariant(x.X, inLoop, depth+1) {
+			return false
+		}
+		// nothing in the loop writes the variable
+		root := x.X
+		for {
+			if fa, ok := root.(*ssa.FieldAddr); ok {
+				root = fa.X
+				continue
+			}
+			break
+		}
+		if al, ok := root.(*ssa.Alloc); ok {
+			for _, r := range core.Referrers(al) {
+				if st, ok := r.(*ssa.Store); ok && st.Addr == ssa.Value(al) && inLoop(st.Block()) {
+					return false
+				}
+			}
+		}
+		return true
+	}
+	return false
+}
+
+// lastPos: the position of the last instruction of b that has one.
+func lastPos(b *ssa.BasicBlock) token.Pos {
+	for i := len(b.Instrs) - 1; i >= 0; i-- {
+		if p := b.Instrs[i].Pos(); p.IsValid() {
+			return p
+		}
+		if ifi, ok := b.Instrs[i].(*ssa.If); ok {
+			if v, ok := ifi.Cond.(ssa.Instruction); ok && v.Pos().IsValid() {
+				return v.Pos()
+			}
+		}
+	}
+	return token.NoPos
+}
